@@ -45,19 +45,21 @@ def _delivered(framing, ka, count, variant):
             concrete = isinstance(raw, (bytes, bytearray))
             items = list(bytes(raw)) if concrete else list(SBytes.of(raw).items)
             head = {"rtu": 7, "tcp": 9, "aa55": 9}[self.framing]
-            if self.framing == "aa55":
-                n = obs.pieces["good"][6] if "good" in obs.pieces else n
-            if len(items) < head + n or (self.framing != "tcp" and len(items) != head + n):
+            # the same grammar as the validator-level obligation (checks/validators.py:wellformed): function/type,
+            # byte count resp. length byte, checksum — the property does not list the AA55/RTU header magic, and an
+            # AA55 answer announces its own payload length (the request does not fix it)
+            if len(items) < head or (self.framing != "aa55" and len(items) < head + n) or (self.framing == "rtu" and len(items) != head + n):
                 fail("a result of the wrong length was delivered", f"{len(items)} bytes")
             z = [b if isinstance(b, int) else to_z3(b) for b in items]
             conds = []
             if self.framing == "rtu":
-                conds += [z[0] == 0xAA, z[1] == 0x55, z[3] == 3, z[4] == n]
+                conds += [z[3] == 3, z[4] == n]
             elif self.framing == "tcp":
                 conds += [z[7] == 3, z[8] == n, z[4] * 256 + z[5] + 6 <= len(items)]
             else:
-                conds += [z[0] == 0xAA, z[1] == 0x55, z[6] == n, z3.Sum([b if not isinstance(b, int) else z3.IntVal(b) for b in z[:-2]])
-                          == z[-2] * 256 + z[-1]]
+                t0, t1 = obs.pieces["good"][4], obs.pieces["good"][5]
+                conds += [z[4] == t0, z[5] == t1, z[6] == len(items) - 9,
+                          z3.Sum([b if not isinstance(b, int) else z3.IntVal(b) for b in z[:-2]]) == z[-2] * 256 + z[-1]]
             for c in conds:
                 check(c if isinstance(c, bool) else c, "a result that is not a well-formed answer to the request was delivered")
             if self.framing == "rtu" and concrete:
